@@ -113,11 +113,16 @@ package chord
 //@   opt frame=off
 //@   ensures policy: len(r) == 6 && r[0] == retry.Context(ctx) && r[1] == retry.Attempts(n.retryAttempts) && r[2] == retry.Delay(n.retryInterval) && r[4] == retry.RetryIf(ErrorIsRetryable) && r[5] == retry.LastErrorOnly(true)
 
+// retryWitness(err): Skolem function for "some registered retryable error matches err" (defined by the index the loop stops at)
+//@ spec retryWitness(err error) int
 //@ func ErrorIsRetryable(err error) (r bool)
+//@   pure
 //@   opt frame=off
 //@   ghost w int = -1
 //@   at return#1: ghost w := rangeindex
 //@   ensures local-true-only-for-a-registered-retryable-error: r ==> (0 <= w && w < len(retryableErrs) && errors.Is(err, retryableErrs[w]))
+//@   at return#1: assume skolem-definition-of-the-witness: retryWitness(err) == rangeindex
+//@   ensures true-only-if-some-registered-error-matches: r ==> (0 <= retryWitness(err) && retryWitness(err) < len(retryableErrs) && errors.Is(err, retryableErrs[retryWitness(err)]))
 //@   ensures false-only-if-none-matches: !r ==> (forall i int :: 0 <= i && i < len(retryableErrs) ==> !errors.Is(err, retryableErrs[i]))
 //@   loop e: invariant idx: -1 <= rangeindex && rangeindex < len(retryableErrs)
 //@   loop e: invariant none-so-far: forall i int :: 0 <= i && i <= rangeindex ==> !errors.Is(err, retryableErrs[i])
@@ -354,3 +359,29 @@ package chord
 //@   at after call ListKeys#1: ghost g_keys := callresult0
 //@   at after call ListKeys#1: ghost g_err := callresult1
 //@   ensures forwards-the-wrapped-node-result: keys == g_keys && err == g_err
+
+// ---- C14: error registry and round trip
+
+//@ macro registryOK() bool = (has(errorStrMap, "chord/membership: node cannot handle join request at the moment") && errorStrMap["chord/membership: node cannot handle join request at the moment"] == ErrJoinInvalidState && cast(ErrJoinInvalidState, "*Error") != nil && cast(ErrJoinInvalidState, "*Error").msg == "chord/membership: node cannot handle join request at the moment" && dyntype(ErrJoinInvalidState, "*Error")) && (has(errorStrMap, "chord/membership: failed to transfer keys to joiner node") && errorStrMap["chord/membership: failed to transfer keys to joiner node"] == ErrJoinTransferFailure && cast(ErrJoinTransferFailure, "*Error") != nil && cast(ErrJoinTransferFailure, "*Error").msg == "chord/membership: failed to transfer keys to joiner node" && dyntype(ErrJoinTransferFailure, "*Error")) && (has(errorStrMap, "chord/membership: join request was routed to the wrong successor node") && errorStrMap["chord/membership: join request was routed to the wrong successor node"] == ErrJoinInvalidSuccessor && cast(ErrJoinInvalidSuccessor, "*Error") != nil && cast(ErrJoinInvalidSuccessor, "*Error").msg == "chord/membership: join request was routed to the wrong successor node" && dyntype(ErrJoinInvalidSuccessor, "*Error")) && (has(errorStrMap, "chord/membership: node cannot handle leave request at the moment") && errorStrMap["chord/membership: node cannot handle leave request at the moment"] == ErrLeaveInvalidState && cast(ErrLeaveInvalidState, "*Error") != nil && cast(ErrLeaveInvalidState, "*Error").msg == "chord/membership: node cannot handle leave request at the moment" && dyntype(ErrLeaveInvalidState, "*Error")) && (has(errorStrMap, "chord/membership: failed to transfer keys to successor node") && errorStrMap["chord/membership: failed to transfer keys to successor node"] == ErrLeaveTransferFailure && cast(ErrLeaveTransferFailure, "*Error") != nil && cast(ErrLeaveTransferFailure, "*Error").msg == "chord/membership: failed to transfer keys to successor node" && dyntype(ErrLeaveTransferFailure, "*Error")) && (has(errorStrMap, "chord/kv: processing node no longer has ownership over requested key") && errorStrMap["chord/kv: processing node no longer has ownership over requested key"] == ErrKVStaleOwnership && cast(ErrKVStaleOwnership, "*Error") != nil && cast(ErrKVStaleOwnership, "*Error").msg == "chord/kv: processing node no longer has ownership over requested key" && dyntype(ErrKVStaleOwnership, "*Error")) && (has(errorStrMap, "chord/kv: kv transfer inprogress, state may be outdated") && errorStrMap["chord/kv: kv transfer inprogress, state may be outdated"] == ErrKVPendingTransfer && cast(ErrKVPendingTransfer, "*Error") != nil && cast(ErrKVPendingTransfer, "*Error").msg == "chord/kv: kv transfer inprogress, state may be outdated" && dyntype(ErrKVPendingTransfer, "*Error")) && (has(errorStrMap, "chord: node is not part of the chord ring") && errorStrMap["chord: node is not part of the chord ring"] == ErrNodeGone && cast(ErrNodeGone, "*Error") != nil && cast(ErrNodeGone, "*Error").msg == "chord: node is not part of the chord ring" && dyntype(ErrNodeGone, "*Error")) && (has(errorStrMap, "chord: node is not running") && errorStrMap["chord: node is not running"] == ErrNodeNotStarted && cast(ErrNodeNotStarted, "*Error") != nil && cast(ErrNodeNotStarted, "*Error").msg == "chord: node is not running" && dyntype(ErrNodeNotStarted, "*Error")) && (has(errorStrMap, "chord: node has no successor, possibly invalid chord ring") && errorStrMap["chord: node has no successor, possibly invalid chord ring"] == ErrNodeNoSuccessor && cast(ErrNodeNoSuccessor, "*Error") != nil && cast(ErrNodeNoSuccessor, "*Error").msg == "chord: node has no successor, possibly invalid chord ring" && dyntype(ErrNodeNoSuccessor, "*Error")) && (has(errorStrMap, "chord: node cannot be nil") && errorStrMap["chord: node cannot be nil"] == ErrNodeNil && cast(ErrNodeNil, "*Error") != nil && cast(ErrNodeNil, "*Error").msg == "chord: node cannot be nil" && dyntype(ErrNodeNil, "*Error")) && (has(errorStrMap, "chord/membership: joining node has duplicate ID as its successor") && errorStrMap["chord/membership: joining node has duplicate ID as its successor"] == ErrDuplicateJoinerID && cast(ErrDuplicateJoinerID, "*Error") != nil && cast(ErrDuplicateJoinerID, "*Error").msg == "chord/membership: joining node has duplicate ID as its successor" && dyntype(ErrDuplicateJoinerID, "*Error")) && (has(errorStrMap, "chord/kv: simple key was concurrently modified") && errorStrMap["chord/kv: simple key was concurrently modified"] == ErrKVSimpleConflict && cast(ErrKVSimpleConflict, "*Error") != nil && cast(ErrKVSimpleConflict, "*Error").msg == "chord/kv: simple key was concurrently modified" && dyntype(ErrKVSimpleConflict, "*Error")) && (has(errorStrMap, "chord/kv: child already exists under prefix") && errorStrMap["chord/kv: child already exists under prefix"] == ErrKVPrefixConflict && cast(ErrKVPrefixConflict, "*Error") != nil && cast(ErrKVPrefixConflict, "*Error").msg == "chord/kv: child already exists under prefix" && dyntype(ErrKVPrefixConflict, "*Error")) && (has(errorStrMap, "chord/kv: lease has not expired or was acquired by a different requester") && errorStrMap["chord/kv: lease has not expired or was acquired by a different requester"] == ErrKVLeaseConflict && cast(ErrKVLeaseConflict, "*Error") != nil && cast(ErrKVLeaseConflict, "*Error").msg == "chord/kv: lease has not expired or was acquired by a different requester" && dyntype(ErrKVLeaseConflict, "*Error")) && (has(errorStrMap, "chord/kv: lease has expired with the given token") && errorStrMap["chord/kv: lease has expired with the given token"] == ErrKVLeaseExpired && cast(ErrKVLeaseExpired, "*Error") != nil && cast(ErrKVLeaseExpired, "*Error").msg == "chord/kv: lease has expired with the given token" && dyntype(ErrKVLeaseExpired, "*Error")) && (has(errorStrMap, "chord/kv: lease ttl must be greater than a second") && errorStrMap["chord/kv: lease ttl must be greater than a second"] == ErrKVLeaseInvalidTTL && cast(ErrKVLeaseInvalidTTL, "*Error") != nil && cast(ErrKVLeaseInvalidTTL, "*Error").msg == "chord/kv: lease ttl must be greater than a second" && dyntype(ErrKVLeaseInvalidTTL, "*Error")) && (has(errorStrMap, "chord/kv: calculated hash is different from storage") && errorStrMap["chord/kv: calculated hash is different from storage"] == ErrKVHashFnChanged && cast(ErrKVHashFnChanged, "*Error") != nil && cast(ErrKVHashFnChanged, "*Error").msg == "chord/kv: calculated hash is different from storage" && dyntype(ErrKVHashFnChanged, "*Error"))
+//@ macro retryableOK() bool = len(retryableErrs) == 8 && retryableErrs[0] == context.DeadlineExceeded && retryableErrs[1] == ErrJoinInvalidState && retryableErrs[2] == ErrJoinTransferFailure && retryableErrs[3] == ErrJoinInvalidSuccessor && retryableErrs[4] == ErrLeaveInvalidState && retryableErrs[5] == ErrLeaveTransferFailure && retryableErrs[6] == ErrKVStaleOwnership && retryableErrs[7] == ErrKVPendingTransfer
+
+//@ func init()
+//@   safety off
+//@   opt frame=off
+//@   ensures registry-maps-every-message-to-its-error: registryOK()
+//@   ensures retryable-set: retryableOK()
+
+//@ func (e *Error) Error() (r string)
+//@   pure
+//@   ensures r == e.msg
+
+//@ func ErrorMapper(err error) (r error)
+//@   pure
+//@   safety off
+//@   opt frame=off
+//@   ensures nil-stays-nil: err == nil ==> r == nil
+//@   ensures twirp-errors-map-by-message: (err != nil && implements(err, twirp.Error)) ==> r == (has(errorStrMap, cast(err, twirp.Error).Msg()) ? errorStrMap[cast(err, twirp.Error).Msg()] : err)
+//@   ensures other-errors-map-by-text: (err != nil && !implements(err, twirp.Error)) ==> r == (has(errorStrMap, err.Error()) ? errorStrMap[err.Error()] : err)
+
+//@ func errorDef(str string, retryable bool) (r error)
+//@   inline
